@@ -445,6 +445,7 @@ type MapIterator[K comparable, V any] struct {
 	i    int
 	K    K
 	V    V
+	site string // non-empty: every step is a guarded read (mapguard.go)
 }
 
 func MapIter[K comparable, V any, M ~map[K]V](m M) *MapIterator[K, V] {
@@ -452,6 +453,9 @@ func MapIter[K comparable, V any, M ~map[K]V](m M) *MapIterator[K, V] {
 }
 
 func (it *MapIterator[K, V]) Next() bool {
+	if it.site != "" && it.i > 0 && it.i < len(it.keys) {
+		mapAccess(it.m, false, it.site)
+	}
 	for it.i < len(it.keys) {
 		k := it.keys[it.i]
 		it.i++
